@@ -556,7 +556,7 @@ def gen_graph(rng, seeds):
                 row.append(("n", rng.randrange(k)))
             else:
                 a = gen_atom(rng, seeds)
-                while a[0] == 'D' and ((a[1] >> 52) & 0x7FF) == 0x7FF and (a[1] & ((1 << 52) - 1)):
+                while has(a, lambda t: t[0] == 'D' and is_nan_bits(t[1])):     # NaN (also as a complex part: recorded finding) is kept to the tree stream
                     a = gen_atom(rng, seeds)
                 row.append(("a", a))
         slots.append(row)
@@ -869,6 +869,10 @@ def _txt(h):
 
 
 # ----------------------------------------------------------------------------- mutated texts: three readers on the same bytes
+import re as _re
+_BIG_MANTISSA = _re.compile(rb"[0-9]{18,}[eE]")
+
+
 def check_texts(ctx, d, exe, data, n):
     rng = ctx.rng
     pool = [x for x in data if not trivial(x) and not has(x, lambda t: t[0] in 'QX')]
@@ -896,6 +900,8 @@ def check_texts(ctx, d, exe, data, n):
                 continue
             if b"#;" in u or b"#|" in u or b"#!" in u:
                 continue
+            if _BIG_MANTISSA.search(bytes(u)):
+                continue      # sexp_read_bignum's exponent arm (exact result, see notes r2): outside the model, never written
             texts.append(bytes(u))
     texts = sorted(set(texts))[:n]
     model = ctx.run_model(exe, ["read " + t.hex() for t in texts])
